@@ -442,7 +442,17 @@ def _worklist_closure(ctx: Ctx, fi: FuncInfo, pm, node, it, kind) -> Optional[st
         cons = node.func.value.id
     elif kind == 'for':
         apps = [x for x in ast.walk(node) if isinstance(x, ast.Call) and isinstance(x.func, ast.Attribute) and x.func.attr == 'append' and isinstance(x.func.value, ast.Name)]
-        rest = _body_order_insensitive([st for st in node.body if not (isinstance(st, ast.Expr) and st.value in apps)], set())
+        def without_apps(stmts):
+            out = []
+            for st in stmts:
+                if isinstance(st, ast.Expr) and st.value in apps:
+                    continue
+                if isinstance(st, ast.If):
+                    out.append(ast.If(test=st.test, body=without_apps(st.body) or [ast.Pass()], orelse=without_apps(st.orelse)))
+                else:
+                    out.append(st)
+            return out
+        rest = _body_order_insensitive(without_apps(node.body), set())
         if len({a.func.value.id for a in apps}) == 1 and rest is None:
             cons = apps[0].func.value.id
     if cons is None:
@@ -479,6 +489,8 @@ def _worklist_closure(ctx: Ctx, fi: FuncInfo, pm, node, it, kind) -> Optional[st
             if isinstance(st, ast.If):
                 st2 = ast.If(test=st.test, body=strip(st.body) or [ast.Pass()], orelse=strip(st.orelse))
                 out.append(st2)
+            elif isinstance(st, ast.For) and not st.orelse:
+                out.extend(strip(st.body))          # an inner loop over the neighbours: judged by what it does per neighbour
             else:
                 out.append(st)
         return out
